@@ -285,7 +285,7 @@ def concretize(case, rnd, n, harness_exe, thorough, session=None):
         attr = {"uid": uid, "admin": 1 if own["elevated"] else rnd.choice(NOT_ELEVATED), "dip": dip, "dport": dport}
     if not session:
         steps.append({"op": "connect", "conn": cid, "attr": attr})
-    host_status = rnd.choice([200, 200, 201, 404, 500])
+    host_status = rnd.choice([200, 200, 201, 404, 500, 403, 401])    # (the host may refuse a relayed request itself)
     host_fault = "reset" if (not session and case["forwarded"] and rnd.random() < 0.12) else "none"
     wire_target = target
     if not session and not sh["prov"] and not exempt and rnd.random() < 0.05:
